@@ -34,7 +34,8 @@ BUDGET = (55, 560)
 BOUNDS = ('d in {2,3,4} (thorough: 5), mode sizes 1..4 incl. all-ones and leading/trailing 1, rank profiles 1 / 2 / 4 / '
           'ragged / over-ranked, memory orders C/F/V, integer cores in [-3,3] (exact ==) and Gaussian cores '
           '(c*eps*sum|products|); every multi-index of every tensor; expression trees depth <= 3 (thorough 4); '
-          'per clause ~ 150 systematic + 120 seeded cases quick, ~ 700 + 600 thorough')
+          'per clause ~ 150 systematic + 120 seeded cases quick, ~ 700 + 600 thorough; reductions also for d = 28 .. 130 '
+          '(2^63 .. 3^100 entries) against exact rational arithmetic')
 
 EPS = np.finfo(float).eps
 LIM = 2 ** 53
@@ -217,6 +218,60 @@ def sum_mean(n, r, seed, kind, order):
             msg = _agree(teneva.mean(Y, PP), want, bnd, what=f'mean(P {name}, extra={extra})')
             if msg:
                 return FAIL(msg)
+    return PASS
+
+
+@clause('C01.reductions.many_modes', funcs=('act_one.sum', 'act_one.mean', 'act_one.get', 'act_two.mul_scalar', 'act_one.norm'))
+def many_modes(d, nk, seed):
+    """Tensors with far more entries than any integer type can count (2^63 .. 3^100): sum, mean (plain and weighted),
+    get, mul_scalar and norm against exact rational arithmetic on the core chain (non-negative integer cores, so every
+    floating-point result has relative error <= c * d * eps)."""
+    from fractions import Fraction
+    g = gen.rng('C01.many', seed)
+    r = [1] + [int(x) for x in g.integers(1, 3, size=d - 1)] + [1]
+    Y = [g.integers(0, 3, size=(r[k], nk, r[k + 1])).astype(float) for k in range(d)]
+    for G in Y:
+        G[0, 0, 0] = 1.                                   # keeps the total positive
+    snap = gen.snapshot(Y)
+
+    def chain(mats):
+        v = [[1]]
+        for Mx in mats:
+            v = [[sum(v[0][a] * Mx[a][b] for a in range(len(Mx))) for b in range(len(Mx[0]))]]
+        return v[0][0]
+
+    ints = [[[[int(G[a, j, b]) for b in range(G.shape[2])] for a in range(G.shape[0])] for j in range(nk)] for G in Y]
+    summed = [[[sum(S[j][a][b] for j in range(nk)) for b in range(len(S[0][0]))] for a in range(len(S[0]))] for S in ints]
+    tot = chain(summed)
+    N = nk ** d
+    tol = 64 * d * EPS
+
+    def close(got, want, what):
+        want = Fraction(want)
+        if not np.isfinite(got) or abs(Fraction(float(got)) - want) > Fraction(tol) * abs(want):
+            return f'{what}: got {got!r}, exact value {float(want)!r} (d={d}, mode size {nk}, {N} entries)'
+        return None
+
+    P = [[int(x) for x in g.integers(0, 3, size=nk)] for _ in range(d)]
+    wsummed = [[[sum(P[k][j] * ints[k][j][a][b] for j in range(nk)) for b in range(len(ints[k][0][0]))]
+                for a in range(len(ints[k][0]))] for k in range(d)]
+    i = [int(x) for x in g.integers(0, nk, size=d)]
+    sq = []
+    for k in range(d):                                     # <Y, Y> through the exact Kronecker chain
+        r1, r2 = len(ints[k][0]), len(ints[k][0][0])
+        sq.append([[sum(ints[k][j][a][b] * ints[k][j][a2][b2] for j in range(nk)) for b in range(r2) for b2 in range(r2)]
+                   for a in range(r1) for a2 in range(r1)])
+    yy = chain(sq)
+    msg = (close(teneva.sum(Y), tot, 'sum') or close(teneva.mean(Y), Fraction(tot, N), 'mean')
+           or close(teneva.mean(Y, norm=False), tot, 'mean(norm=False)')
+           or close(teneva.mean(Y, [np.array(p, dtype=float) for p in P]), chain(wsummed), 'mean(P)')
+           or close(teneva.get(Y, i), chain([ints[k][i[k]] for k in range(d)]), 'get')
+           or close(teneva.mul_scalar(Y, Y), yy, 'mul_scalar(Y, Y)')
+           or close(teneva.norm(Y) ** 2, yy, 'norm(Y)^2'))
+    if msg:
+        return FAIL(msg)
+    if gen.snapshot(Y) != snap:
+        return FAIL('argument cores were modified')
     return PASS
 
 
@@ -785,6 +840,10 @@ def cases(tier, seed):
         yield 'C01.interface.vectors', dict(base, mode=('plain', 'P', 'i', 'iP')[int(g.integers(0, 4))],
                                             norm=(None, 'linalg', 'natural')[int(g.integers(0, 3))],
                                             ltr=bool(g.integers(0, 2)))
+    # many modes: more entries than int64 can count
+    for d_, nk_ in ((40, 3), (63, 2), (64, 2), (65, 2), (80, 2), (28, 5)) + (((100, 3), (130, 2)) if big else ()):
+        for s in range(3 if big else 2):
+            yield 'C01.reductions.many_modes', dict(d=d_, nk=nk_, seed=s)
     # expression trees
     roots = [[2, 3], [3, 1], [2, 1, 3], [1, 1, 1], [2, 2, 2], [3, 2, 2, 2], [1, 2, 2, 1], [2, 3, 1, 2]]
     if big:
